@@ -56,7 +56,7 @@ fn run(pieces: &[&[u8]]) -> Vec<Ev> {
 
 fn main() {
     // Codec::default() starts the date service, which needs a local task set
-    let ok = actix_rt::System::new().block_on(async { checks() });
+    let ok = actix_rt::System::new().block_on(async { let a = checks(); let b = server::check().await; a & b });
     std::process::exit(if ok { 0 } else { 1 });
 }
 
@@ -98,6 +98,7 @@ fn checks() -> bool {
     if ok { println!("BOUNDED-OK h1_request_framing cases={}", n); }
     ok & chunk_syntax() & ws::check() & body_channel::check()
 }
+
 
 /// RFC 7230 4.1: chunk-size = 1*HEXDIG [ chunk-ext ] CRLF, chunk-data followed by CRLF; a malformed chunk ends the
 /// connection with an error and nothing after it is interpreted as a request
@@ -301,4 +302,180 @@ mod body_channel {
         unsafe { Waker::from_raw(RawWaker::new(std::ptr::null(), &VT)) }
     }
     use futures_core::Stream;
+}
+
+// ---------------------------------------------------------------- the HTTP/1 server end to end over an in-memory connection (C02, C03, C05)
+mod server {
+    use std::time::Duration;
+    use actix_http::{body::{BodyStream, BoxBody}, HttpService, Request, Response, StatusCode};
+    use actix_service::{fn_service, ServiceFactory, Service};
+    use bytes::Bytes;
+    use tokio::io::{AsyncReadExt, AsyncWriteExt};
+
+    fn data(n: usize) -> Vec<u8> { (0..n).map(|i| b"0123456789"[i % 10]).collect() }
+
+    /// what the handler answers for a path (the reference the wire is compared with): (status, body, connection: close set by the handler)
+    fn answer(path: &str) -> (u16, Vec<u8>, bool) {
+        let p: Vec<&str> = path.trim_start_matches('/').split('/').collect();
+        match p[0] {
+            "s" => (200, data(p[1].parse().unwrap()), false),
+            "c" | "e" => (200, data(p[1].parse().unwrap()), false),
+            "n" => (204, vec![], false),
+            "close" => (200, b"bye".to_vec(), true),
+            _ => (404, vec![], false),
+        }
+    }
+
+    async fn handle(req: Request) -> Result<Response<BoxBody>, std::convert::Infallible> {
+        let path = req.path().to_owned();
+        let p: Vec<&str> = path.trim_start_matches('/').split('/').collect();
+        Ok(match p[0] {
+            "s" => Response::ok().set_body(Bytes::from(data(p[1].parse().unwrap()))).map_into_boxed_body(),
+            "c" | "e" => {
+                let n: usize = p[1].parse().unwrap();
+                let k: usize = p[2].parse().unwrap();
+                let pieces: Vec<Result<Bytes, std::io::Error>> = data(n).chunks(k.max(1)).map(|c| Ok(Bytes::copy_from_slice(c))).collect();
+                if p[0] == "e" {
+                    // a hand-written body type that yields an EMPTY chunk in the middle (BodyStream would filter it out)
+                    let mut v: Vec<Bytes> = pieces.into_iter().map(|r| r.unwrap()).collect();
+                    let mid = v.len() / 2; v.insert(mid, Bytes::new());
+                    return Ok(Response::ok().set_body(RawChunks { items: v.into() }).map_into_boxed_body());
+                }
+                Response::ok().set_body(BodyStream::new(futures_util::stream::iter(pieces))).map_into_boxed_body()
+            }
+            "n" => Response::new(StatusCode::NO_CONTENT).map_into_boxed_body(),
+            "close" => { let mut r = Response::ok().set_body(Bytes::from_static(b"bye")).map_into_boxed_body(); r.head_mut().set_connection_type(actix_http::ConnectionType::Close); r }
+            _ => Response::new(StatusCode::NOT_FOUND).map_into_boxed_body(),
+        })
+    }
+
+    struct RawChunks { items: std::collections::VecDeque<Bytes> }
+    impl actix_http::body::MessageBody for RawChunks {
+        type Error = std::io::Error;
+        fn size(&self) -> actix_http::body::BodySize { actix_http::body::BodySize::Stream }
+        fn poll_next(mut self: std::pin::Pin<&mut Self>, _: &mut std::task::Context<'_>) -> std::task::Poll<Option<Result<Bytes, Self::Error>>> {
+            std::task::Poll::Ready(self.items.pop_front().map(Ok))
+        }
+    }
+
+    #[derive(Debug, PartialEq)]
+    struct Resp { status: u16, body: Vec<u8>, close: bool }
+
+    /// minimal HTTP/1.1 response-stream parser (what a conforming client does); Err = not a well-formed sequence of messages
+    fn parse_responses(mut wire: &[u8], heads: &[bool]) -> Result<Vec<Resp>, String> {
+        let mut out = Vec::new();
+        while !wire.is_empty() {
+            let end = wire.windows(4).position(|w| w == b"\r\n\r\n").ok_or_else(|| format!("incomplete head after {} responses", out.len()))?;
+            let head = std::str::from_utf8(&wire[..end]).map_err(|_| "head is not text".to_owned())?;
+            wire = &wire[end + 4..];
+            let mut lines = head.split("\r\n");
+            let st = lines.next().unwrap();
+            if !(st.starts_with("HTTP/1.1 ") || st.starts_with("HTTP/1.0 ")) { return Err(format!("bad status line {:?}", st)); }
+            let status: u16 = st[9..12].parse().map_err(|_| format!("bad status line {:?}", st))?;
+            let mut cl: Option<usize> = None; let mut chunked = false; let mut close = st.starts_with("HTTP/1.0 ");     // HTTP/1.0: close unless keep-alive is negotiated
+            for l in lines {
+                let (k, v) = l.split_once(':').ok_or_else(|| format!("bad header line {:?}", l))?;
+                let (k, v) = (k.trim().to_ascii_lowercase(), v.trim().to_ascii_lowercase());
+                if k == "content-length" { if cl.is_some() { return Err("two content-length headers".into()); } cl = Some(v.parse().map_err(|_| "bad content-length".to_owned())?); }
+                if k == "transfer-encoding" { chunked = v == "chunked"; }
+                if k == "connection" && v == "close" { close = true; }
+            }
+            let is_head = heads.get(out.len()).copied().unwrap_or(false);
+            let mut body = Vec::new();
+            if is_head || status / 100 == 1 || status == 204 || status == 304 {
+            } else if chunked {
+                if cl.is_some() { return Err("content-length together with chunked".into()); }
+                loop {
+                    let e = wire.windows(2).position(|w| w == b"\r\n").ok_or("incomplete chunk size line")?;
+                    let sz = usize::from_str_radix(std::str::from_utf8(&wire[..e]).map_err(|_| "bad chunk size")?.trim(), 16).map_err(|_| "bad chunk size".to_owned())?;
+                    wire = &wire[e + 2..];
+                    if sz == 0 { if !wire.starts_with(b"\r\n") { return Err("missing CRLF after last chunk".into()); } wire = &wire[2..]; break; }
+                    if wire.len() < sz + 2 || &wire[sz..sz + 2] != b"\r\n" { return Err("chunk data cut short".into()); }
+                    body.extend_from_slice(&wire[..sz]); wire = &wire[sz + 2..];
+                }
+            } else if let Some(n) = cl {
+                if wire.len() < n { return Err(format!("body cut short: {} of {} bytes", wire.len(), n)); }
+                body.extend_from_slice(&wire[..n]); wire = &wire[n..];
+            } else { body.extend_from_slice(wire); wire = &[]; close = true; }
+            out.push(Resp { status, body, close });
+        }
+        Ok(out)
+    }
+
+    /// one connection: the request bytes in the given pieces, then the client half-closes; returns everything the server wrote
+    async fn exchange(pieces: &[&[u8]]) -> Result<Vec<u8>, String> {
+        let (mut client, server_io) = tokio::io::duplex(1 << 20);
+        let factory = HttpService::build().client_request_timeout(Duration::from_secs(30)).h1(fn_service(handle));
+        let svc = factory.new_service(()).await.map_err(|_| "service init".to_owned())?;
+        let conn = actix_rt::spawn(async move { let _ = svc.call((server_io, None)).await; });
+        for p in pieces { if client.write_all(p).await.is_err() { break; } client.flush().await.ok(); tokio::task::yield_now().await; }     // the server may have closed already
+        client.shutdown().await.ok();
+        let mut out = Vec::new();
+        match actix_rt::time::timeout(Duration::from_secs(20), client.read_to_end(&mut out)).await {
+            Ok(_) => {}
+            Err(_) => return Err("the connection did not finish within 20 s (stall)".into()),
+        }
+        let _ = conn.await;
+        Ok(out)
+    }
+
+    pub async fn check() -> bool {
+        // (request text, path, is HEAD, the request asks for / causes the connection to close)
+        let reqs: Vec<(String, &str, bool, bool)> = vec![
+            ("GET /s/0 HTTP/1.1\r\n\r\n".into(), "/s/0", false, false), ("GET /s/5 HTTP/1.1\r\n\r\n".into(), "/s/5", false, false), ("HEAD /s/5 HTTP/1.1\r\n\r\n".into(), "/s/5", true, false),
+            ("GET /c/10/3 HTTP/1.1\r\n\r\n".into(), "/c/10/3", false, false), ("GET /e/10/3 HTTP/1.1\r\n\r\n".into(), "/e/10/3", false, false), ("HEAD /c/10/3 HTTP/1.1\r\n\r\n".into(), "/c/10/3", true, false),
+            ("GET /n HTTP/1.1\r\n\r\n".into(), "/n", false, false),
+
+            ("GET /s/2 HTTP/1.1\r\nconnection: close\r\n\r\n".into(), "/s/2", false, true), ("GET /close HTTP/1.1\r\n\r\n".into(), "/close", false, true), ("GET /s/4 HTTP/1.0\r\n\r\n".into(), "/s/4", false, true),
+        ];
+        let mut seqs: Vec<Vec<usize>> = Vec::new();
+        // pipelined sequences mix neither HEAD with other methods nor HTTP/1.0 with 1.1: the response framing of a pipelined
+        // request depending on a LATER request's method / version is the listed finding C02
+        // (codec_context_belongs_to_the_response_in_flight); those mixes are left to that finding's own demonstration
+        let plain = |i: &usize| !reqs[*i].2 && !reqs[*i].0.contains("HTTP/1.0");
+        let open: Vec<usize> = (0..reqs.len()).filter(|i| !reqs[*i].3 && plain(i)).collect();
+        let lasts: Vec<usize> = (0..reqs.len()).filter(|i| plain(i)).collect();
+        for a in 0..reqs.len() { seqs.push(vec![a]); }
+        for a in &open { for b in &lasts { seqs.push(vec![*a, *b]); } }
+        for a in &open { for b in &open { for c in &lasts { seqs.push(vec![*a, *b, *c]); } } }
+        let mut n = 0usize;
+        for seq in &seqs {
+            let mut bytes = Vec::new();
+            for i in seq { bytes.extend_from_slice(reqs[*i].0.as_bytes()); }
+            let heads: Vec<bool> = seq.iter().map(|i| reqs[*i].2).collect();
+            let expected: Vec<(u16, Vec<u8>)> = seq.iter().map(|i| { let (st, b, _) = answer(reqs[*i].1); (st, if reqs[*i].2 { vec![] } else { b }) }).collect();
+            let last_closes = reqs[*seq.last().unwrap()].3;
+            let mut segs: Vec<Vec<&[u8]>> = vec![vec![&bytes[..]]];
+            let step = if seq.len() == 1 { 1 } else { 7 };
+            let mut cut = 1; while cut < bytes.len() { segs.push(vec![&bytes[..cut], &bytes[cut..]]); cut += step; }
+            for seg in &segs {
+                n += 1;
+                let sizes: Vec<usize> = seg.iter().map(|p| p.len()).collect();
+                let wire = match exchange(seg).await { Ok(w) => w, Err(e) => { println!("BOUNDED-FAIL h1_server input={:?} pieces={:?} expected=the responses and a closed connection got={}", String::from_utf8_lossy(&bytes), sizes, e); return false; } };
+                let got = match parse_responses(&wire, &heads) { Ok(g) => g, Err(e) => { println!("BOUNDED-FAIL h1_server input={:?} pieces={:?} expected=well-formed responses got={} in {:?}", String::from_utf8_lossy(&bytes), sizes, e, String::from_utf8_lossy(&wire)); return false; } };
+                let got_sb: Vec<(u16, Vec<u8>)> = got.iter().map(|r| (r.status, r.body.clone())).collect();
+                if got_sb != expected || (last_closes && !got.last().map(|r| r.close).unwrap_or(false)) {
+                    println!("BOUNDED-FAIL h1_server input={:?} pieces={:?} expected={} responses {:?}{} got={:?}", String::from_utf8_lossy(&bytes), sizes, expected.len(), expected.iter().map(|e| (e.0, e.1.len())).collect::<Vec<_>>(), if last_closes { ", the last announcing close" } else { "" }, got.iter().map(|r| (r.status, r.body.len(), r.close)).collect::<Vec<_>>());
+                    return false;
+                }
+            }
+        }
+        // a malformed request is answered with 400 and nothing after it is interpreted as a request; an oversized head with 431
+        for (bad, status) in [("GET /s/1 HTTP/1.1\r\ncontent-length: abc\r\n\r\n".to_owned(), 400u16), ("GET /s/1 HTTP/1.1\r\ncontent-length: 1\r\ntransfer-encoding: chunked\r\n\r\n".to_owned(), 400),
+                              (format!("GET /s/1 HTTP/1.1\r\nx: {}", "a".repeat(1_000_000)), 431)] {     // far beyond anything the read buffer can hold at once
+            for prefix in ["", "GET /s/5 HTTP/1.1\r\n\r\n"] {
+                n += 1;
+                let mut bytes = prefix.as_bytes().to_vec(); bytes.extend_from_slice(bad.as_bytes()); bytes.extend_from_slice(b"GET /s/7 HTTP/1.1\r\n\r\n");
+                let wire = match exchange(&[&bytes[..]]).await { Ok(w) => w, Err(e) => { println!("BOUNDED-FAIL h1_server input=(malformed request, {} bytes) expected={} and close got={}", bytes.len(), status, e); return false; } };
+                let got = match parse_responses(&wire, &[]) { Ok(g) => g, Err(e) => { println!("BOUNDED-FAIL h1_server input=(malformed request, {} bytes) expected=well-formed responses got={}", bytes.len(), e); return false; } };
+                let exp_n = if prefix.is_empty() { 1 } else { 2 };
+                if got.len() != exp_n || got.last().unwrap().status != status || got.iter().any(|r| r.body == data(7)) {
+                    println!("BOUNDED-FAIL h1_server input=({:?}...) expected={} response(s), the last one {} , and nothing for the request after it got={:?}", &String::from_utf8_lossy(&bytes)[..60.min(bytes.len())], exp_n, status, got.iter().map(|r| (r.status, r.body.len())).collect::<Vec<_>>());
+                    return false;
+                }
+            }
+        }
+        println!("BOUNDED-OK h1_server cases={}", n);
+        true
+    }
 }
